@@ -346,14 +346,16 @@ func (self *BinaryConv) unmarshalMap(ctx context.Context, resp http.ResponseSett
 		return wrapError(meta.ErrRead, "parse MapKey Tag error", keyErr)
 	}
 	mapKeyDesc := fd.Key()
-	isIntKey := (mapKeyDesc.Type() == proto.INT32) || (mapKeyDesc.Type() == proto.INT64) || (mapKeyDesc.Type() == proto.UINT32) || (mapKeyDesc.Type() == proto.UINT64)
-	if isIntKey {
+	// a JSON member name must be a string: every key kind except string (which is quoted by its own
+	// encoder) needs the quotes, i.e. all the integer kinds and bool
+	quoteKey := mapKeyDesc.Type() != proto.STRING
+	if quoteKey {
 		*out = append(*out, '"')
 	}
 	if e := self.unmarshalSingular(ctx, resp, p, out, mapKeyDesc); e != nil {
 		return unwrapError("parse MapKey Value error", e)
 	}
-	if isIntKey {
+	if quoteKey {
 		*out = append(*out, '"')
 	}
 	*out = json.EncodeObjectColon(*out)
@@ -388,13 +390,13 @@ func (self *BinaryConv) unmarshalMap(ctx context.Context, resp http.ResponseSett
 		if keyErr != nil {
 			return wrapError(meta.ErrRead, "parse MapKey Tag error", keyErr)
 		}
-		if isIntKey {
+		if quoteKey {
 			*out = append(*out, '"')
 		}
 		if e := self.unmarshalSingular(ctx, resp, p, out, mapKeyDesc); e != nil {
 			return unwrapError("parse MapKey Value error", e)
 		}
-		if isIntKey {
+		if quoteKey {
 			*out = append(*out, '"')
 		}
 		*out = json.EncodeObjectColon(*out)
